@@ -1,18 +1,17 @@
 package gen
 
 import (
-	"sort"
-
 	"github.com/semafind/semadb/models"
 	"pgregory.net/rapid"
-	"verif/model"
 )
 
 // Rename maps the generators' fixed property names to the names a case runs with. Index property names
 // are free-form strings in semadb (nothing validates them beyond being non-empty) and they end up inside
 // bucket names and shared-cache names, so a case generated with the fixed names may be executed with names
 // that are unusual as path components. Only top-level (undotted) names are renamed, and only to undotted
-// names, so the shape of the documents stays the same.
+// names, so the shape of the documents stays the same. The translation happens in the driver
+// (drive.OpenNamed): schema, documents, queries, select and sort lists and bucket names on the way in,
+// documents on the way out; the model and the oracles keep the fixed names.
 type Rename map[string]string
 
 // PathyNames are property names that a path-like treatment (cleaning, joining, splitting on "/") would
@@ -56,90 +55,10 @@ func (r Rename) Name(p string) string {
 	return p
 }
 
-func (r Rename) Schema(s models.IndexSchema) models.IndexSchema {
-	if len(r) == 0 {
-		return s
+// MaybeRename draws a renaming for one case in six (nil otherwise).
+func MaybeRename(t *rapid.T, schema models.IndexSchema) Rename {
+	if rapid.IntRange(0, 5).Draw(t, "rename") != 0 {
+		return nil
 	}
-	out := models.IndexSchema{}
-	for p, v := range s {
-		out[r.Name(p)] = v
-	}
-	return out
-}
-
-func (r Rename) Doc(d model.Doc) model.Doc {
-	if len(r) == 0 || d == nil {
-		return d
-	}
-	out := model.Doc{}
-	keys := make([]string, 0, len(d))
-	for k := range d {
-		keys = append(keys, k)
-	}
-	sort.Strings(keys)
-	for _, k := range keys {
-		out[r.Name(k)] = d[k]
-	}
-	return out
-}
-
-func (r Rename) Steps(steps []Step) []Step {
-	if len(r) == 0 {
-		return steps
-	}
-	out := make([]Step, len(steps))
-	for i, st := range steps {
-		out[i] = st
-		if st.Points != nil {
-			out[i].Points = make([]model.Point, len(st.Points))
-			for j, p := range st.Points {
-				out[i].Points[j] = model.Point{Id: p.Id, Doc: r.Doc(p.Doc)}
-			}
-		}
-	}
-	return out
-}
-
-func (r Rename) Query(q models.Query) models.Query {
-	if len(r) == 0 {
-		return q
-	}
-	q.Property = r.Name(q.Property)
-	sub := func(f *models.Query) *models.Query {
-		if f == nil {
-			return nil
-		}
-		g := r.Query(*f)
-		return &g
-	}
-	if q.VectorFlat != nil {
-		o := *q.VectorFlat
-		o.Filter = sub(o.Filter)
-		q.VectorFlat = &o
-	}
-	if q.VectorVamana != nil {
-		o := *q.VectorVamana
-		o.Filter = sub(o.Filter)
-		q.VectorVamana = &o
-	}
-	if q.Text != nil {
-		o := *q.Text
-		o.Filter = sub(o.Filter)
-		q.Text = &o
-	}
-	if q.And != nil {
-		and := make([]models.Query, len(q.And))
-		for i := range q.And {
-			and[i] = r.Query(q.And[i])
-		}
-		q.And = and
-	}
-	if q.Or != nil {
-		or := make([]models.Query, len(q.Or))
-		for i := range q.Or {
-			or[i] = r.Query(q.Or[i])
-		}
-		q.Or = or
-	}
-	return q
+	return GenRename(t, schema)
 }
